@@ -30,6 +30,10 @@ theorem monoClamp_length (lt : α → α → Bool) (t0 : α) (ts : List α) : (m
   | nil => rfl
   | cons t ts ih => simp [monoClamp, ih]
 
+theorem polished_length (O : SplitOps α) (o : SegOracle α) (T : α) (sel : List α) (h : sel.length = o.inv.length) :
+    (polished O o T sel).length = o.inv.length := by
+  simp [polished, List.length_zipWith, h]
+
 theorem foldl_push_length {β : Type} (f : SState α → β → RPath α) (g : SState α → β → RPath α)
     (l : List β) (s : SState α) :
     (l.foldl (fun (st : SState α) (b : β) =>
@@ -63,8 +67,9 @@ theorem quadCase_bookkeeping (start cp e : Pt α) (o : SegOracle α) (s s' : SSt
     simp only
     have := foldl_push_length (α := α) (fun st (pc : Pt α × Pt α × Pt α) => quadTo G pc.2.1 pc.2.2 st.q)
       (fun st pc => moveTo pc.2.2 st.q)
-      (cutsGen O.lt O.sub O.div O.one O.quadL O.quadR (start, cp, e) O.zero (monoClamp O.lt O.zero o.inv)).1 s
-    rw [cutsGen_length, monoClamp_length] at this
+      (cutsGen O.lt O.sub O.div O.one O.quadL O.quadR (start, cp, e) O.zero
+        (monoClamp O.lt O.zero (polished O o s.T (selectCuts O s.T o.dT s.rem).1))).1 s
+    rw [cutsGen_length, monoClamp_length, polished_length O o s.T _ hlen'] at this
     split <;> simp_all
 
 /-- the same for cubic segments -/
@@ -85,8 +90,9 @@ theorem cubeCase_bookkeeping (start c1 c2 e : Pt α) (o : SegOracle α) (s s' : 
     have := foldl_push_length (α := α)
       (fun st (pc : Pt α × Pt α × Pt α × Pt α) => cubeTo G pc.2.1 pc.2.2.1 pc.2.2.2 st.q)
       (fun st pc => moveTo pc.2.2.2 st.q)
-      (cutsGen O.lt O.sub O.div O.one O.cubeL O.cubeR (start, c1, c2, e) O.zero (monoClamp O.lt O.zero o.inv)).1 s
-    rw [cutsGen_length, monoClamp_length] at this
+      (cutsGen O.lt O.sub O.div O.one O.cubeL O.cubeR (start, c1, c2, e) O.zero
+        (monoClamp O.lt O.zero (polished O o s.T (selectCuts O s.T o.dT s.rem).1))).1 s
+    rw [cutsGen_length, monoClamp_length, polished_length O o s.T _ hlen'] at this
     split <;> simp_all
 
 /-- once all positions are consumed a segment is copied through the builder and nothing is pushed -/
